@@ -8,7 +8,7 @@ VERIF = os.path.dirname(os.path.dirname(os.path.abspath(__file__)))
 CLAIMED = {
     "C11": dict(
         text="Coq theorems on the keep rule of remove_obsolete_files: no file needed by the current version, another live version, an output being written or recovery is ever selected for deletion; at a quiescent moment every surviving file is needed, except manifests numbered above the current one (recorded known finding orphan-newer-manifest, with a refutation witness). Tied to the code by judging every observed directory listing (after quiescence in histories, after recovery of every crash image and after the following clean reopen) with the extracted keep rule and exactness predicate.",
-        note="The discipline that keeps a version linked exactly while it has holders (release_version) is modelled (Gc.v vset) but its balance theorem is not yet proved; the leak D8 was found and repaired through the directory check. Reader-versus-deletion interleavings are exercised by pause-point schedules only.",
+        note="The version-list discipline (a version stays linked exactly while the current pointer, an iterator, a read or a compaction holds it; with no holders only the current version's files are live) is proved on the reference-count model (C11_linked_iff_held, C11_no_holds_exact, D8 as a witness); inside the protocol model every file removed by garbage collection is one recovery does not look at and every prefix of the removals recovers the same contents (C11_gc_removed_not_needed, C11_gc_preserves_recovery). Reader-versus-deletion interleavings on the real code are exercised by pause-point schedules only.",
         design="6 / C11",
         technique="machine-checked proof in Coq (decision function properties) + checked model-code correspondence on directory listings",
     ),
@@ -79,8 +79,8 @@ CLAIMED = {
         technique="machine-checked proof in Coq (inductive invariant over all interleavings) + checked model-code correspondence on pause-point schedules",
     ),
     "C02": dict(
-        text="Coq theorems on byte-exact models of the batch codec, the manifest record codec and the write-ahead log: decode(encode x) = x for varints, slices, batches and version changes; for every sequence of writer sessions and EVERY byte length n at which the log is cut, recovery returns exactly a prefix of the appended batches, batch j being recovered iff its record ends at or before n (wal_crash_atomic: batches are all-or-nothing and acknowledged = fully written batches survive), the replayed map and the recovered last sequence number follow. Tied to the code by crash images taken at every filesystem operation (including a torn last write) of real executions on SimFs, recovered by the real DB::open and judged against the extracted specification, plus byte-exact differential execution of the codecs.",
-        note="The file-level protocol around the log (CURRENT switching, manifest append before WAL deletion, file-number reservation) is exercised by the crash suite at every operation of every history but is not yet a theorem; fsync is not modelled because the code never calls it (every completed write is assumed durable).",
+        text="Coq theorems on byte-exact models of the batch codec, the manifest record codec, the write-ahead log, recovery and the persistence protocol: for every run of the protocol model, every crash point and every tear length the recovered contents are exactly the acknowledged batches (plus the in-flight one when its record is complete) and recovery never fails (C02_crash_safe_with_installs, C02_crash_recovery_succeeds); decode(encode x) = x for varints, slices, batches and version changes; for every sequence of writer sessions and EVERY byte length n at which the log is cut, recovery returns exactly a prefix of the appended batches, batch j being recovered iff its record ends at or before n (wal_crash_atomic: batches are all-or-nothing and acknowledged = fully written batches survive), the replayed map and the recovered last sequence number follow. Recovery itself is a Coq function of the directory image (Recover.recover_image: CURRENT, manifest records, version, logs replayed in order) and the whole persistence protocol is a Coq state machine that emits file operations (Proto.v: open/recover, write, rotate, flush, install, garbage collection). Tied to the code by crash images taken at every filesystem operation (including a torn last write) of real executions on SimFs, recovered by the real DB::open and judged against the extracted specification; every such image is also recovered by the extracted recover_image and compared with DB::open (result, last sequence, contents); after every operation of random histories the complete directory (CURRENT, logs byte for byte, manifests record by record, tables entry by entry) is compared with the directory Proto.p_run derives; plus byte-exact differential execution of the codecs.",
+        note="The crash-safety theorem of the protocol model is proved for every run of open / write / rotate / flush / install / reopen from a cleanly closed directory, every crash point and every tear length (C02_crash_safe_with_installs); reopening FROM a crash image and continuing (nested crashes) is proved step-wise only where noted in DESIGN 0.8 and is otherwise covered by the crash suite (post-recovery writes, second reopen, nested crash points). fsync is not modelled because the code never calls it (every completed write is assumed durable).",
         design="6 / C02",
         technique="machine-checked proof in Coq (induction over writer sessions and block arithmetic; codec round trips) + checked model-code correspondence on crash images",
     ),
@@ -95,6 +95,12 @@ CLAIMED = {
         note="The manifest's torn tail is covered by the correspondence (crash suite) and by the log-level theorem, not by a database-level theorem.",
         design="6 / C16",
         technique="machine-checked proof in Coq + checked model-code correspondence on torn crash images",
+    ),
+    "C08": dict(
+        text="Coq theorems on the write path under a failing write-ahead log append (Faults.v: apply_changes after the repair of D4 with the sticky bad-state flag; a failing append may leave ANY prefix of the record in the file), for all runs, all fault positions and all prefix lengths: results are Ok up to the first failure and errors from then on (reported, sticky); what reads see is exactly the acknowledged batches; after the fault is gone and the log is recovered the contents are the acknowledged batches followed by the failed batch wholly or not at all (exactly characterised by whether the whole emission reached the file); sequence numbers handed out after the reopen are fresh. The protocol-level theorems of C02 (Proto.v) add: every crash point of flush, manifest append, CURRENT switch and garbage collection recovers the acknowledged batches. Tied to the code by (wfault) failing log appends that let 0, a few, thousands of bytes through on real databases, comparing results, scans, the exact log bytes and the reopened contents with the extracted model, and by (fault) every call position of every file-system call class x transient/sticky on whole histories, judged against the specification.",
+        note="Failures of table writes, manifest appends, the CURRENT switch and file removal are covered by the fault suite (every position) and, for the durable side, by the crash-safety theorem of the protocol model (a failed call leaves a prefix of the operations applied), but the in-memory error handling of those paths (bad-state flag set by the background thread, retries) is exercised, not modelled.",
+        design="6 / C08, 0.10",
+        technique="machine-checked proof in Coq (induction over the run; crash atomicity of the log for the partial append) + checked model-code correspondence under injected faults",
     ),
     "C12": dict(
         text="Coq theorems about a byte-exact model of the log writer/reader (round trip over all "
